@@ -25,6 +25,24 @@ pub const BASH_EXCLUDED_VARIABLES: &[&str] = &[
     "__SCRUT_TEMP_STATE_PATH",
     // variables set by scrut in every execution
     "SCRUT_TEST",
+    // variables that scrut sets anew for every execution of a test case; if
+    // they were restored from the previous execution then what a test did to
+    // them (e.g. `unset TMPDIR`) would replace the values scrut provides
+    "TESTDIR",
+    "TESTFILE",
+    "TESTSHELL",
+    "TMPDIR",
+    "CDPATH",
+    "COLUMNS",
+    "GREP_OPTIONS",
+    "LANG",
+    "LANGUAGE",
+    "LC_ALL",
+    "SHELL",
+    "TZ",
+    "CRAMTMP",
+    "TMP",
+    "TEMP",
     // variables from `man bash`
     "BASHOPTS",
     "BASH_ALIASES",
